@@ -212,6 +212,46 @@ def streams(seed, nepisodes, prefix, faults=False, big=True):
         yield {'id': '%s%d' % (prefix, i), 'comp': 'dec', 'solo': True, 'ops': ops}
 
 
+def slow_stream(seed, prefix='W', counts=(300, 1100)):
+    """A slow endpoint next to busy ones: its segmented message stays open while hundreds or thousands of frames of
+    other endpoints pass (unsegmented traffic and whole segmented messages, so that first segments arrive meanwhile);
+    every one of its own frames arrives, in order - the message must be delivered (C05 / C17 / C18; round5a-8,
+    round10a-3: reassemblies dropped after N frames of others)."""
+    rng = random.Random(seed + 41)
+    for i, nforeign in enumerate(counts):
+        slow = Sender(rng, 0x0140, 9, rng.choice([5, 65533]))
+        others = [Sender(rng, d, st, rng.choice([0, 65000])) for d, st in ((0x0140, 8), (0x0141, 9), (7, 7))]
+        p = logical(rng, 'generic', 90, slow.ver)
+        sizes = [30, 30, 30]
+        ops = [{'op': 'new'}]
+        off = 0
+        for k, sz in enumerate(sizes):
+            seg = 1 if k == 0 else (3 if k == len(sizes) - 1 else 2)
+            body = wire.msg_header(p, seg, sz) + p['pl'][off:off + sz]
+            off += sz
+            last = seg == 3
+            ops.append({'op': 'decode', 'in': slow.frame(p['mt'], body),
+                        'meta': {'ep': 0, 'seg': seg, 'sent': [{'ep': [slow.dev, slow.st], 'p': p}] if last else [],
+                                 'deliver': [[p] if last else []]}})
+            if last:
+                break
+            # the others talk: mostly small unsegmented frames, now and then a whole segmented message
+            for j in range(nforeign // 2):
+                o = others[j % len(others)]
+                if j % 97 == 50:
+                    q = logical(rng, 'generic', 40, o.ver)
+                    for kk, (a, b) in enumerate(((0, 20), (20, 40))):
+                        sg = 1 if kk == 0 else 3
+                        ops.append({'op': 'decode', 'in': o.frame(q['mt'], wire.msg_header(q, sg, b - a) + q['pl'][a:b]),
+                                    'meta': {'ep': 1 + j % len(others), 'seg': sg,
+                                             'sent': [{'ep': [o.dev, o.st], 'p': q}] if sg == 3 else [], 'deliver': [[q] if sg == 3 else []]}})
+                else:
+                    q = logical(rng, 'generic', 4, o.ver)
+                    ops.append({'op': 'decode', 'in': o.frame(q['mt'], wire.msg_header(q, 0, 4) + q['pl']),
+                                'meta': {'ep': 1 + j % len(others), 'seg': 0, 'sent': [{'ep': [o.dev, o.st], 'p': q}], 'deliver': [[q]]}})
+        yield {'id': '%s%d' % (prefix, i), 'comp': 'dec', 'solo': True, 'ops': ops}
+
+
 def encoder_streams(seed, nepisodes, prefix, faults=False):
     """Frames produced by real encoders (2..4 endpoints, also the same device with another stream, counters near
     the wrap), interleaved into one decoder; optionally with drop / duplicate / hold-release faults."""
